@@ -216,7 +216,12 @@ def plaintext_pick(sel: List[int]) -> bool:
 def CANDIDATES(func: str):
     import itertools
 
-    if func == "plaintext_pick":
+    if func == "result_comment_names":
+        from harness.zoo import all_vectors
+
+        for vec in all_vectors(_dec_result_names, SEL_LEN):
+            yield [vec]
+    elif func == "plaintext_pick":
         for sel in itertools.product(range(2), range(5)):
             yield [list(sel) + [0] * 8]
     elif func == "cache_step":
@@ -225,3 +230,75 @@ def CANDIDATES(func: str):
     else:
         for sel in itertools.product(range(3), range(15), range(14), range(3), [1]):
             yield [list(sel) + [0] * 5]
+
+
+# ----------------------------------------------------------------------- result descriptions: comment name == result name
+def _dec_result_names(sel):
+    cur = Cur()
+    ret = rd(sel, cur, 4)  # return hint: none / int / (int, str) / (int, str, int)
+    ndoc = 1 + rd(sel, cur, 3)
+    docs = []
+    for i in range(ndoc):
+        named = rd(sel, cur, 2) == 1
+        typed = rd(sel, cur, 2) == 1
+        docs.append((f"r{i}" if named else "", typed))
+    return ret, docs
+
+
+def result_comment_names(sel: List[int]) -> bool:
+    """Analyser and generator together: a function whose docstring documents 1-3 results (named or not, typed or not),
+    with a return hint of 0-3 elements. Where the stub declares as many results as the docstring documents, the i-th
+    '@result <name>' line of the comment carries the name of the i-th declared result (the description sits on its own
+    result) and the description text occurs once.
+
+    pre: len(sel) == SEL_LEN and fixed(sel)
+    post: _
+    """
+    import safeds_stubgen.api_analyzer._ast_visitor as V
+    from harness.c07 import _fun_text
+    from harness.c14 import StubParser
+    from safeds_stubgen.api_analyzer import API, TypeSourcePreference, TypeSourceWarning
+    from safeds_stubgen.api_analyzer._api import Module
+    from safeds_stubgen.api_analyzer._types import NamedType
+    from safeds_stubgen.docstring_parsing import ResultDocstring
+    from vlib import shim
+
+    try:
+        ret, docs = _dec_result_names(sel)
+    except OutOfRange:
+        return True
+    shim.install()
+    INT_, STR_ = shim.instance("builtins.int"), shim.instance("builtins.str")
+    hint = [None, INT_, shim.tuple_type([INT_, STR_]), shim.tuple_type([INT_, STR_, INT_])][ret]
+    node = shim.func_def("f", "pkg.m.f", [], ret=hint, annotated=True, body=[shim.expr_stmt(shim.mk(shim.N.EllipsisExpr))])
+    doc_type = NamedType("float", "builtins.float")
+    parser = StubParser({}, [ResultDocstring(type=doc_type if typed else None, description=f"description-{i}", name=name)
+                             for i, (name, typed) in enumerate(docs)])
+    api = API("", "pkg", "")
+    vis = V.MyPyAstVisitor(parser, api, {}, TypeSourcePreference.CODE, TypeSourceWarning.IGNORE)
+    vis._MyPyAstVisitor__declaration_stack.append(Module(id_="pkg/m", name="m"))
+    vis.mypy_file = shim.mypy_file("pkg.m", "pkg/m.py")
+    vis.enter_funcdef(node)
+    fn = vis._MyPyAstVisitor__declaration_stack[-1]
+    text = _fun_text(api, fn)
+    note("oracle")
+    labels = []
+    with untraced():
+        from oracle.recogniser import parse_decl
+
+        try:
+            d = parse_decl(text)
+        except StubSyntaxError as e:
+            return judge([f"stub-syntax:{e.msg.split(';')[0]}"])
+        comment = [ln.strip().lstrip("*").strip() for ln in (d.doc or "").split("\n")]
+        tags = [ln.split(" ", 2) for ln in comment if ln.startswith("@result ")]
+        for i in range(len(docs)):
+            if text.count(f"description-{i}") != 1:
+                labels.append("result-description-not-exactly-once")
+        if len(tags) == len(docs) == len(d.results):
+            for (tag, (name, typed), r) in zip(tags, docs, d.results):
+                if len(tag) < 3 or tag[1] != r.name:
+                    kind = "unnamed-result-after-a-named-one" if not name and any(n for n, _ in docs) else "other"
+                    labels.append(f"result-description-under-another-name-than-its-result:{kind}")
+    return judge(sorted(set(labels)))
+
